@@ -841,6 +841,27 @@ def run_shape(desc, tier):
         problems += vp
         if bytes(copy.copy(obj)) != E:
             problems.append('copy of the %s key exports differently' % half)
+        # a copy shares nothing with the original: what is done to the copy (an identity removed, a subkey's signatures and the key's own
+        # armor headers changed, the secret material protected) leaves the original's export as it was
+        try:
+            c = copy.copy(obj)
+            c.ascii_headers['Comment'] = 'changed on the copy'
+            if len(c.userids) > 1:
+                c.del_uid(c.userids[-1].name)
+            for u in c.userids[:1]:
+                if u._signatures:
+                    u._signatures.pop()
+            for sub in c.subkeys.values():
+                if sub._signatures:
+                    sub._signatures.pop()
+                sub._key.created = sub._key.created + datetime.timedelta(seconds=1)
+            if half == 'private' and not c.is_protected:
+                c.protect('only the copy', SymmetricKeyAlgorithm.AES128, HashAlgorithm.SHA256)
+            if bytes(obj) != E or dearmor(str(obj))[1] != E or 'Comment' in obj.ascii_headers:
+                problems.append('changing a copy of the %s key changed the original (export %s, headers %s)'
+                                % (half, 'differs' if bytes(obj) != E else 'same', dict(obj.ascii_headers)))
+        except Exception as ex:
+            problems.append('changing a copy of the %s key raised %s: %s' % (half, type(ex).__name__, str(ex)[:60]))
         kind, data = dearmor(str(obj))
         if data != E or kind != ('PRIVATE KEY BLOCK' if half == 'private' else 'PUBLIC KEY BLOCK'):
             problems.append('armored export differs from the binary export (independent de-armor)')
